@@ -448,17 +448,29 @@ func runScalars(raw json.RawMessage, seed int64, rec *Rec) {
 		gate := make(chan struct{})
 		var closed atomic.Bool
 		var once sync.Once
+		var cancelCall context.CancelFunc
 		lt := httpClientFunc(func(req *http.Request) (*http.Response, error) {
 			go func() { _, _ = io.Copy(io.Discard, req.Body) }()
 			once.Do(func() { close(entered) })
 			<-gate
 			hdr := http.Header{}
 			hdr.Set("Content-Type", contentType(s.Proto, s.Used == "unary", "proto"))
-			return &http.Response{Status: statusLine(200), StatusCode: 200, Proto: "HTTP/2.0", ProtoMajor: 2, Header: hdr, Trailer: http.Header{},
-				Body: &lateBody{ctx: req.Context(), closed: &closed}, Request: req}, nil
+			status := 200
+			if s.N != 0 {
+				// an error page of some intermediary: no protocol-level error in it
+				status = s.N
+				hdr.Set("Content-Type", "text/plain")
+			}
+			body := &lateBody{ctx: req.Context(), closed: &closed}
+			if s.Text == "body" {
+				body.cancel = cancelCall // the response head wins the race, the body does not
+			}
+			return &http.Response{Status: statusLine(status), StatusCode: status, Proto: "HTTP/2.0", ProtoMajor: 2, Header: hdr, Trailer: http.Header{},
+				Body: body, Request: req}, nil
 		})
 		client := connect.NewClient[BV, BV](lt, "http://verif.test/verif.v1.Svc/M", clientProtoOpts(s.Proto)...)
 		ctx, cancel := context.WithCancel(context.Background())
+		cancelCall = cancel
 		done := make(chan struct{})
 		var err error
 		go func() {
@@ -493,8 +505,10 @@ func runScalars(raw json.RawMessage, seed int64, rec *Rec) {
 		case <-time.After(10 * time.Second):
 			stuck = true
 		}
-		cancel()
-		time.Sleep(time.Duration(s.D) * time.Millisecond) // (the API calls may or may not have returned by now)
+		if s.Text != "body" {
+			cancel()
+			time.Sleep(time.Duration(s.D) * time.Millisecond) // (the API calls may or may not have returned by now)
+		}
 		close(gate)
 		select {
 		case <-done:
@@ -724,9 +738,14 @@ func (f httpClientFunc) Do(r *http.Request) (*http.Response, error) { return f(r
 type lateBody struct {
 	ctx    context.Context
 	closed *atomic.Bool
+	cancel context.CancelFunc // the call's context ends when the body is first read
 }
 
 func (b *lateBody) Read([]byte) (int, error) {
+	if b.cancel != nil {
+		b.cancel()
+		<-b.ctx.Done()
+	}
 	if err := b.ctx.Err(); err != nil {
 		return 0, err
 	}
